@@ -804,7 +804,7 @@ func kwpAllSection(x *h.X) {
 		return
 	}
 	x.NonTrivial()
-	npat := 2
+	npat := 3
 	cnt := 0
 	for n := kwp.MinWrapSize; n <= kwp.MaxWrapSize; n++ {
 		if n%kwpShards != shard {
@@ -816,6 +816,13 @@ func kwpAllSection(x *h.X) {
 				kind = p // all-00 and all-FF payloads on odd lengths
 			}
 			pl := ref.Pattern(kind, n)
+			if p == 2 {
+				// a payload that looks like KWP's own framing: starts with the RFC 5649 AIV constant and ends in
+				// nine zero bytes (indistinguishable from padding for an unwrap that trusts the bytes, not the MLI)
+				pl = ref.Pattern(3, n)
+				copy(pl, []byte{0xA6, 0x59, 0x59, 0xA6})
+				clear(pl[n-9:])
+			}
 			in := bytes.Clone(pl)
 			c1, e1 := w.Wrap(in)
 			x.Eval(1)
